@@ -307,6 +307,7 @@ type querySink struct {
 
 type Exec struct {
 	w        *World
+	mulPairs map[string][2]*Term // (hi|lo) of a bits.Mul64 result -> its operands
 	pteeEpoch int // bumped by every store through a pointer that was loaded from an array of pointers
 	epochs   int
 	mapLens  map[string]*Term
